@@ -1,6 +1,7 @@
 package props
 
 import (
+	"time"
 	"context"
 	"fmt"
 	"strings"
@@ -41,6 +42,7 @@ func c18(tier string) []*explore.Scenario {
 	out = append(out, c18WriteFault(bound), c18StatefulKey(bound), c18CancelWhileWriting(bound))
 	out = append(out, c18ReuseWhileOldWriteStuck("completes", bound), c18ReuseWhileOldWriteStuck("never", bound))
 	out = append(out, c18DoubleCancel(0, 2), c18DoubleCancel(3, 2))
+	out = append(out, c18DoneCtxRead(2, 2), c18DoneCtxRead(3, 1))
 	seqLen := 5
 	if tier == "thorough" {
 		seqLen = 7
@@ -908,6 +910,71 @@ func c18DoubleCancel(readers, bound int) *explore.Scenario {
 			vsched.Quiesce()
 			if len(conns) != 2 {
 				vsched.Fail(fam+"|reused-key-lost", "k0 used again after the cancels: %d connections announced in all", len(conns))
+			}
+			dm.Stop()
+			shared.A.Break()
+			shared.B.Break()
+			vsched.Quiesce()
+		},
+	}
+}
+
+// c18DoneCtxRead: envelopes for k0 are waiting while a Read on k0's logical connection is
+// issued under a context that is already done: whichever way that Read ends, an envelope it
+// does not return stays for the next Read - every envelope is handed over exactly once, in
+// arrival order.
+func c18DoneCtxRead(n, bound int) *explore.Scenario {
+	fam := "C18/delivery"
+	return &explore.Scenario{
+		Name: fmt.Sprintf("C18/done-context-read/n=%d", n), Family: fam, Prop: "C18", Bound: bound,
+		Run: func() {
+			tap := &env.Tap{}
+			shared := env.NewPipe(tap, env.PipeOpts{Name: "shared", Cap: 8})
+			var conns []goat.RpcReadWriter
+			ctx, cancel := context.WithCancel(context.Background())
+			defer cancel()
+			dm := goat.NewDemux(ctx, shared.B, func(r *env.Rpc) string { return r.GetHeader().GetSource() }, func(rw goat.RpcReadWriter) { conns = append(conns, rw) })
+			vsched.GoNamed("demux-run", func() { dm.Run() })
+			vsched.Settle()
+			vsched.Explore(true)
+			for i := 1; i <= n; i++ {
+				shared.A.Inject(c18Msg(uint64(i), "k0"))
+			}
+			vsched.Quiesce()
+			if len(conns) != 1 {
+				vsched.Fail(fam+"|announce-count", "k0 not announced (connections %d)", len(conns))
+				return
+			}
+			dead, dc := context.WithCancel(context.Background())
+			dc()
+			var got []uint64
+			for attempt := 0; attempt < n; attempt++ {
+				if r, err := conns[0].Read(dead); err == nil {
+					got = append(got, r.GetId())
+				}
+				vsched.Quiesce()
+			}
+			for len(got) < n {
+				rctx, rc := context.WithTimeout(context.Background(), time.Second)
+				done := false
+				var r *env.Rpc
+				var err error
+				vsched.GoNamed("reader", func() { r, err = conns[0].Read(rctx); done = true })
+				vsched.QuiesceTime()
+				rc()
+				if !done || err != nil {
+					vsched.Fail(fam+"|order-or-loss", "%d envelopes arrived for k0; Reads under a done context returned %v; a Read with a live context then found nothing (%v): a failed Read consumed an envelope", n, got, err)
+					return
+				}
+				got = append(got, r.GetId())
+			}
+			want := []uint64{}
+			for i := 1; i <= n; i++ {
+				want = append(want, uint64(i))
+			}
+			vsched.Obs("got %v", got)
+			if fmt.Sprint(got) != fmt.Sprint(want) {
+				vsched.Fail(fam+"|order-or-loss", "k0 received %v, arrival order %v", got, want)
 			}
 			dm.Stop()
 			shared.A.Break()
